@@ -4097,7 +4097,7 @@ class Wallet(object):
         if (fee_per_output and transaction.change < fee_per_output) or transaction.change <= transaction.network.dust_amount:
             transaction.fee += transaction.change
             transaction.change = 0
-        if transaction.change < 0:
+        if transaction.change < 0 or transaction.fee < 0:
             raise WalletError("Total amount of outputs is greater then total amount of inputs")
         if transaction.change:
             min_output_value = transaction.network.dust_amount * 2 + transaction.network.fee_min * 4
